@@ -198,6 +198,28 @@ def C17(c):
              "multiples of the brick, multi-brick jumps, reversals; rejected brick sizes (0, eps/2, 1, >1, negative, NaN, inf)")
 
 
+def C09(c):
+    c.proofs()
+    exe = need_harness(c)
+    if exe:
+        r = run_suite(exe, "api", c.seed, c.tier, "C09-api")
+        c.add_suite(r, sig_method)
+        c.coverage["routes"] = {k[6:]: v for k, v in r.get("stats", {}).items() if k.startswith("route:")}
+    return c.finish(
+        level="proof",
+        trusted=TRUSTED_COMMON + [
+            "clone independence / determinism of the Rust code are facts about derived Clone on owned data (no static mut, Rc, "
+            "RefCell, thread_local in src/): exercised Rust-vs-Rust, not proved",
+            "the API routes are thin generic wrappers (src/core/method.rs, sequence.rs, helpers/history.rs); their model is "
+            "YataModel/Runner.lean, compared through the bit-identical Rust-vs-Rust outputs of every route",
+        ],
+        rule="for 45 method types x lengths {1,2,3,5,14,31,254} (thorough: 16 lengths x 3 stream classes): next-by-next vs over(slice), "
+             "over(Vec), Sequence::call, random chunkings with empty chunks, new_over (also on []), apply/new_apply (also on []), "
+             "into_fn, new_fn, with_history (+get/iter), with_last_value (+peek), clone at a random point with the original then "
+             "disturbed (and the clone racing ahead of its source), two identical instances, peek after every next; all compared "
+             "bit-for-bit inside the harness; a flag line per route")
+
+
 def replay(prop, path):
     """re-run a replay file: real code through the harness, then the driver"""
     text = open(path).read()
@@ -211,6 +233,17 @@ def replay(prop, path):
         print(out)
         return 1
     os.makedirs(WORK, exist_ok=True)
+    m = re.search(r"^# suite (\S+) seed (\d+) tier (\S+) extra ?(.*)$", text, flags=re.M)
+    sig = re.search(r"^# signature (\S+)", text, flags=re.M)
+    if "comp=flags" in text and m:
+        # Rust-vs-Rust comparisons are made inside the harness: re-run that suite with the recorded seed
+        sh(["lake", "build", "driver"], cwd=LEAN)
+        r = run_suite(exe, m.group(1), int(m.group(2)), m.group(3), f"replay-{prop}", m.group(4).split())
+        hits = [mm for mm in r["mismatches"] if sig is None or sig_method(mm) == sig.group(1)]
+        for mm in hits[:5]:
+            print(mm["raw"])
+        print(f"[{prop}] replay {path}: suite {m.group(1)} seed {m.group(2)}: {len(hits)} disagreement(s) with this signature")
+        return 1 if hits else 0
     tr = os.path.join(WORK, f"replay-{prop}.tr")
     rc, out, _ = sh([exe, "replay", "--replay", path, "--out", tr])
     if rc != 0:
@@ -224,4 +257,4 @@ def replay(prop, path):
     return 1 if res["mismatches"] or res.get("error") else 0
 
 
-PROPS = {"C01": C01, "C02": C02, "C03": C03, "C04": C04, "C14": C14, "C16": C16, "C18": C18, "C17": C17}
+PROPS = {"C01": C01, "C02": C02, "C03": C03, "C04": C04, "C14": C14, "C16": C16, "C18": C18, "C17": C17, "C09": C09}
